@@ -37,3 +37,31 @@ package middleware
 // (the decoded credentials text; user and password are what precedes and follows its first colon)
 //@ ensures result ==> len(hdrFirst(r.Header, canon(ba.header))) >= 6 && cutFound(authText(r.Header, canon(ba.header)), ":") && authText(r.Header, canon(ba.header)) == cutBefore(authText(r.Header, canon(ba.header)), ":") + ":" + cutAfter(authText(r.Header, canon(ba.header)), ":") && sameBytes(cutBefore(authText(r.Header, canon(ba.header)), ":"), expectedUser) && sameBytes(cutAfter(authText(r.Header, canon(ba.header)), ":"), expectedPass)
 //@ ensures hdrFirst(r.Header, canon(ba.header)) == "" ==> !result
+
+// ---- the allowed time frame (C04): which time the rules are matched against ----
+// The rules are written in local time (ruleset.TimeFrameEntry.Match expects a
+// local time): TimeFrameAllows hands every rule the reading of the clock exactly
+// as it was read, allows only if some rule matched it, and nothing without rules.
+//@ ghost ivar tfNow() time.Time
+//@ ghost ivar tfArg() time.Time
+//@ ghost ivar tfLast() bool
+//@ ghost ivar tfN() int
+//@ ghost ivar tfResult() bool
+//@ func type:func() time.Time as () (result time.Time)
+//@ trusted
+//@ modifies tfNow()
+//@ ensures result == tfNow()
+//@ contract matchAt(t *ruleset.TimeFrameEntry, timeToMatch time.Time) (result bool)
+//@ modifies tfArg(), tfLast(), tfN()
+//@ ensures tfArg() == timeToMatch && tfLast() == result && tfN() == old(tfN()) + 1
+//@ func TimeFrameAllows
+//@ property C04
+//@ callas (*ruleset.TimeFrameEntry).Match matchAt
+//@ ghostset tfResult() := result
+//@ modifies tfNow(), tfArg(), tfLast(), tfN(), tfResult()
+//@ ensures tfN() > old(tfN()) ==> tfArg() == tfNow()
+//@ ensures result ==> tfN() > old(tfN()) && tfLast()
+//@ ensures len(allowRules) == 0 ==> !result
+//@ ensures tfResult() == result
+//@ loop 0:
+//@   invariant tfN() >= old(tfN()) && (tfN() > old(tfN()) ==> tfArg() == tfNow() && !tfLast())
